@@ -80,6 +80,57 @@ def mutate(r, s):
     return bytes(s)
 
 
+def member_position_shapes():
+    """nesting boundaries with the deep part at EVERY member position: the depth counters must be applied to each
+    member of a struct (first, middle, last) and to a dict value, not only to the first or the last one.  n counts
+    the levels of the kind that is at its limit (32 allowed, 33 not)."""
+    out = []
+    wraps = [(b"(", b")"), (b"(y", b")"), (b"(", b"y)"), (b"(y", b"y)"), (b"(yy", b")"), (b"(a{sv}", b"ay)")]
+    for n in (31, 32, 33, 34):
+        deep_s = b"(" * (n - 1) + b"y" + b")" * (n - 1)          # n-1 struct levels; one more comes from the wrapper
+        deep_a = b"a" * n + b"y"                                  # n array levels
+        deep_a1 = b"a" * (n - 1) + b"y"                           # n-1 array levels; the dict/array wrapper adds one
+        # (1) the same member position at every level: (y(y(y..y..))) / (((..y..)y)y) / (y(y(..y..)y)y)
+        for pre, post in wraps:
+            if len(pre + post) * n + 1 <= 255:
+                out.append(pre * n + b"y" + post * n)
+        # (2) one struct around the deep struct nest, deep part first / middle / last / after a container member
+        for pre, post in wraps[1:]:
+            out.append(pre + deep_s + post)
+        # (3) the deep struct nest two levels down at a non-first and a non-last position
+        deep_s2 = b"(" * (n - 2) + b"y" + b")" * (n - 2)
+        out.append(b"(y(y" + deep_s2 + b"))")
+        out.append(b"((" + deep_s2 + b"y)y)")
+        out.append(b"(y(" + deep_s2 + b"y))")
+        out.append(b"((y" + deep_s2 + b")y)")
+        # (4) deep struct nest as a dict value, and as a later member of a struct that is a dict value
+        out.append(b"a{s" + b"(" * n + b"y" + b")" * n + b"}")
+        out.append(b"a{s(y" + deep_s + b")}")
+        out.append(b"a{s(" + deep_s + b"y)}")
+        out.append(b"(ya{s" + deep_s + b"})")
+        out.append(b"(a{s" + deep_s + b"}y)")
+        out.append(b"(ya{s(y" + b"(" * (n - 2) + b"y" + b")" * (n - 2) + b")}y)")
+        # (5) deep ARRAY nest at every member position of a struct, as a dict value, and below an array of structs
+        out.append(b"(" + deep_a + b")")
+        out.append(b"(y" + deep_a + b")")
+        out.append(b"(" + deep_a + b"y)")
+        out.append(b"(y" + deep_a + b"y)")
+        out.append(b"(y(y" + deep_a + b"))")
+        out.append(b"((" + deep_a + b"y)y)")
+        out.append(b"a{s" + deep_a1 + b"}")
+        out.append(b"(ya{s" + deep_a1 + b"})")
+        out.append(b"(a{s" + deep_a1 + b"}y)")
+        out.append(b"a(y" + deep_a1 + b")")
+        out.append(b"a(" + deep_a1 + b"y)")
+        out.append(b"a{s(y" + deep_a1 + b")}")
+        out.append(b"a{s(" + deep_a1 + b"y)}")
+        # (6) arrays of structs all the way down, element at a non-first / non-last member: a(ya(ya(y..y)))
+        for pre, post in ((b"a(y", b")"), (b"a(", b"y)"), (b"a(y", b"y)"), (b"a{s(y", b")}"), (b"a{s(", b"y)}")):
+            if len(pre + post) * n + 1 <= 255:
+                out.append(pre * n + b"y" + post * n)
+    return out
+
+
 def boundary_strings():
     out = []
     for n in range(29, 37):
@@ -108,6 +159,7 @@ def boundary_strings():
             out.append(b"(" * m + b"a" * n + b"y" + b")" * m)
             out.append(b"a" * m + b"{s" + b"a" * n + b"y}" if m > 0 else b"y")
             out.append(b"(" * m + b"a{s" + b"(" * n + b"y" + b")" * n + b"}" + b")" * m)
+    out += member_position_shapes()
     base = list(out)
     for b in base:
         if len(b) < 250:
@@ -143,14 +195,14 @@ def judge(impl_line, model_line):
     if "NOTUTF8" in i:
         return None
     valid = m["V"] == "ok"                     # proved: model validator accepts <-> grammar
-    nonempty = i["hex"] != "-"
     if i["V"] == "panic" or i["P"] == "panic":
         return "a signature function panicked"
     if (i["V"] == "ok") != valid:
         return "validate_signature %s a string that %s in the grammar" % ("accepts" if i["V"] == "ok" else "rejects", "is" if valid else "is not")
-    if nonempty and (i["P"] == "ok") != valid:
+    # every string, the empty one included (the grammar's empty sequence of complete types)
+    if (i["P"] == "ok") != valid:
         return "parse_description %s a string that %s in the grammar" % ("accepts" if i["P"] == "ok" else "rejects", "is" if valid else "is not")
-    if nonempty and (i["P"] == "ok") != (i["V"] == "ok"):
+    if (i["P"] == "ok") != (i["V"] == "ok"):
         return "parser and validator disagree"
     if i["P"] == "ok" and i["R"] != i["hex"]:
         return "printing the parsed signature does not reproduce the input"
@@ -161,7 +213,7 @@ def judge(impl_line, model_line):
     if valid and i["S"] != m["S"]:
         return "the signature splitter does not yield the top-level complete types"
     if i["P"] != m["P"]:
-        return "parser verdict differs from the model on an invalid/empty string"
+        return "parser verdict differs from the model"
     return None
 
 
@@ -169,7 +221,9 @@ def run(ctx):
     thorough = ctx.tier == "thorough"
     ctx.rule = ("strings = exhaustive enumeration of all strings over the 19 type characters up to length %d "
                 "(enumerated inside the harness and the extracted model, compared by accepted set and count), "
-                "fixed nesting/length boundary strings, grammar-generated valid signatures and their single "
+                "the empty string included; fixed nesting/length boundary strings (nesting limits 31..34 with the deep part at every "
+                "member position of a struct - first, middle, last, after a container member - and as a dict value, each also "
+                "prefixed/suffixed/doubled and mutated), grammar-generated valid signatures and their single "
                 "mutations incl. foreign characters; a case is non-trivial when it contains a container character "
                 "( ) a { }; distinct = distinct byte strings") % (6 if thorough else 5)
     ctx.trusted = ["Coq 8.16.1 kernel (coqc), no native_compute", "extraction with ExtrOcamlBasic only, ocamlfind ocamlopt 4.13.1",
@@ -181,6 +235,13 @@ def run(ctx):
     exe = vlib.harness_build(["c07"])["c07"]
     vlib.coq_make(["Sig/Iter.vo", "Sig/Validator.vo", "Sig/Parser.vo", "Sig/Examples.vo"])
     drv = vlib.ocaml_build("c07")
+    # the behaviour before /repo commit f8eb89e (parse_description("") = Err(EmptySignature)) is kept refuted
+    try:
+        vlib.coq_make(["History/ParserOld.vo"])
+        ctx.extra["historical_lemma"] = ("History/ParserOld.v: C07_old_parser_refuted builds (witness: the empty string - "
+                                         "old parser Err, validator Ok, in the grammar)")
+    except vlib.BrokenTie as bt:
+        ctx.extra["historical_lemma"] = "History/ParserOld.v does not build: " + bt.what
 
     # ---------------- stream 1: corpus + boundaries + generated strings (explicit lines)
     r = ctx.sub_rng("gen")
@@ -244,8 +305,18 @@ def run(ctx):
     # ---------------- driver cross-check: Coq's own evaluation of the model on a sample of the same strings
     import re
     flat = [(inp, lm) for (_, out_m, _), ch in zip(model, chunks) if len(out_m) == len(ch) for inp, lm in zip(ch, out_m)]
-    picked = [x for x in flat if len(x[0]) <= 2 + 2 * 40]
-    picked = r.sample(picked, min(len(picked), 400 if thorough else 120))
+    def raw(inp):
+        return bytes.fromhex(inp[2:]) if inp[2:] != "-" else b""
+    # boundary shapes (nesting limits at every member position, mixed nests) of at most 80 bytes: all of them in the
+    # thorough tier, a sample in the quick tier; plus a sample of the other strings; the empty string always
+    bset = set(bnd)
+    b_short = [x for x in flat if len(x[0]) <= 2 + 2 * 80 and raw(x[0]) in bset]
+    others = [x for x in flat if len(x[0]) <= 2 + 2 * (80 if thorough else 40) and raw(x[0]) not in bset]
+    picked = [x for x in flat if x[0] == "s -"]
+    picked += b_short if thorough else r.sample(b_short, min(len(b_short), 60))
+    picked += r.sample(others, min(len(others), 2000 if thorough else 120))
+    picked = list(dict.fromkeys(picked))
+    ctx.count("in_coq_vm_compute_boundary_shapes", sum(1 for x in picked if raw(x[0]) in bset))
     terms = []
     for inp, _ in picked:
         s = bytes.fromhex(inp[2:]) if inp[2:] != "-" else b""
@@ -275,7 +346,7 @@ def run(ctx):
     # ---------------- stream 2: exhaustive enumeration
     maxlen = 6 if thorough else 5
     tasks = []
-    for L in range(1, maxlen + 1):
+    for L in range(0, maxlen + 1):          # length 0: the empty signature
         if L <= 3:
             tasks.append(["enum %s %d -1" % (ALPHA.hex(), L)])
         else:
